@@ -6,6 +6,7 @@ def run(ctx):
     store.rule_label_ops(ctx)
     store.rule_removed_counter(ctx)
     store.rule_counts(ctx)
+    store.rule_label_store_arithmetic(ctx)
     store.rule_attack_ops(ctx)
     store.rule_index_pairing(ctx)
     store.rule_error_before_mutation(ctx)
